@@ -69,6 +69,8 @@ type MapObj struct {
 	Old    bool
 	Shared int
 	saved  bool
+	SymKeys bool // some key is symbolic: lookups go through the equality chain
+	symSeq  int
 }
 
 type Map struct{ M *MapObj }
@@ -413,8 +415,30 @@ func (m *MapObj) sortedKeys(desc bool) []string {
 
 func (in *Interp) mapSet(m *MapObj, k Value, v Value) {
 	ck, ok := in.canonKey(k)
-	if !ok {
-		in.unmodelled("map update with symbolic key")
+	if !ok || m.SymKeys {
+		// symbolic key (or a map that already has one): fork over "equals entry i" / "new key"
+		keys := append([]string(nil), m.Keys...)
+		conds := make([]*sym.Term, len(keys)+1)
+		var eqs []*sym.Term
+		for i, kk := range keys {
+			conds[i] = in.eqValues(k, m.Ent[kk].K)
+			eqs = append(eqs, conds[i])
+		}
+		conds[len(keys)] = in.B.Not(in.B.Or(eqs...))
+		choice := in.chooseN(conds)
+		in.noteMapWrite(m)
+		if choice < len(keys) {
+			m.Ent[keys[choice]].V = v
+			return
+		}
+		if !ok {
+			m.symSeq++
+			ck = "y:" + strconv.Itoa(m.symSeq)
+			m.SymKeys = true
+		}
+		m.Ent[ck] = &MapEntry{K: k, V: v}
+		m.Keys = append(m.Keys, ck)
+		return
 	}
 	in.noteMapWrite(m)
 	if e, ok := m.Ent[ck]; ok {
